@@ -29,6 +29,13 @@ type SoAV struct {
 type OpaqueArrV struct {
 	ID   int
 	Elem types.Type
+	// Known remembers the values stored at constant indices since the last store at a symbolic index (which may
+	// alias any of them); every other element is unconstrained on each read. Values are immutable: update copies.
+	Known map[uint64]Value
+	// for an array of pointers: the identity and non-nil-ness of each element (the pointee itself is a fresh
+	// object on every load, so two loads of one element agree on identity but not on contents)
+	IDs    *Term // Array BV64 -> BV64
+	NonNil *Term // Array BV64 -> Bool
 }
 
 type PElem struct {
@@ -68,6 +75,7 @@ type Obj struct {
 	IsArr bool       // object is an unbounded array of Typ (slice backing / string bytes)
 	Birth int        // state step stamp at creation (0 = pre-existing)
 	Global *ssa.Global
+	Pointee bool // the object a pointer loaded from an array of pointers points to
 }
 
 type PtrV struct {
@@ -245,7 +253,27 @@ func (e *Exec) navigate(v Value, path []PElem, t types.Type) Value {
 			}
 			v = e.c.Select(x, pe.Index)
 		case *OpaqueArrV:
-			return e.freshVal(x.Elem, "opq")
+			if pe.Index != nil && pe.Index.Const {
+				if kv, ok := x.Known[pe.Index.C]; ok {
+					v = kv
+					continue
+				}
+			}
+			fv := e.freshVal(x.Elem, "opq")
+			if pv, ok := fv.(*PtrV); ok && x.IDs != nil && pe.Index != nil && i == len(path)-1 {
+				id := e.c.Select(x.IDs, pe.Index)
+				if pv.Ref != nil && len(pv.Ref.Path) == 0 {
+					// what the pointee holds is a function of the pointer's identity, until something is stored
+					// through such a pointer (two loads of one element then see the same bytes)
+					o := pv.Ref.Obj
+					o.Pointee = true
+					if es := elemSort(o.Typ); es != nil && !o.IsArr {
+						e.lazyInit[o] = e.c.UF(fmt.Sprintf("deref_%s_%d", o.Typ.String(), e.pteeEpoch), es, id)
+					}
+				}
+				return &PtrV{Ref: pv.Ref, ID: id, Nil: e.c.Not(e.c.Select(x.NonNil, pe.Index))}
+			}
+			return fv
 		case *StringV:
 			// string stored as struct-like leaf inside SoA: not navigable
 			panic(unsupported("navigate into string"))
@@ -316,7 +344,21 @@ func (e *Exec) update(v Value, path []PElem, nv Value) Value {
 		ni := e.update(inner, path[1:], nv).(*Term)
 		return e.c.Store(x, pe.Index, ni)
 	case *OpaqueArrV:
-		return x
+		n := &OpaqueArrV{ID: x.ID, Elem: x.Elem, IDs: x.IDs, NonNil: x.NonNil}
+		if pv, ok := nv.(*PtrV); ok && x.IDs != nil && pe.Index != nil && len(path) == 1 {
+			n.IDs = e.c.Store(x.IDs, pe.Index, e.ptrIdent(pv))
+			n.NonNil = e.c.Store(x.NonNil, pe.Index, e.c.Not(pv.Nil))
+		} else if x.IDs != nil && len(path) == 1 {
+			n.IDs, n.NonNil = e.c.Fresh("pid", x.IDs.Sort), e.c.Fresh("pnn", x.NonNil.Sort)
+		}
+		if pe.Index != nil && pe.Index.Const && len(path) == 1 {
+			n.Known = make(map[uint64]Value, len(x.Known)+1)
+			for k, kv := range x.Known {
+				n.Known[k] = kv
+			}
+			n.Known[pe.Index.C] = nv
+		}
+		return n
 	}
 	panic(unsupported(fmt.Sprintf("update into %T", v)))
 }
@@ -331,4 +373,29 @@ type addrInfo struct {
 	base   *Ref  // the array
 	idx    *Term // element index (absolute, within the backing array)
 	lo, hi *Term // the slice's extent within the backing array [lo, hi)
+}
+
+// ptrIdent is the identity an opaque comparison (or an uninterpreted function) knows a pointer by.
+func (e *Exec) ptrIdent(p *PtrV) *Term {
+	switch {
+	case p.ID != nil:
+		return p.ID
+	case p.Ref != nil && len(p.Ref.Path) == 0:
+		return BVConst(uint64(p.Ref.Obj.ID), 64)
+	}
+	return e.c.Fresh("pid", SBV(64))
+}
+
+// newOpaqueArr makes an array value whose elements are not modelled; pointers keep identity and nil-ness.
+func (e *Exec) newOpaqueArr(elem types.Type, hint string, zero bool) *OpaqueArrV {
+	e.nobj++
+	a := &OpaqueArrV{ID: e.nobj, Elem: elem}
+	if _, ok := elem.Underlying().(*types.Pointer); ok {
+		if zero {
+			a.IDs, a.NonNil = e.c.ZeroOf(SArr(SBV(64))), e.c.ZeroOf(SArr(SBool))
+		} else {
+			a.IDs, a.NonNil = e.c.Fresh(hint+".pid", SArr(SBV(64))), e.c.Fresh(hint+".pnn", SArr(SBool))
+		}
+	}
+	return a
 }
